@@ -6,7 +6,7 @@ reader : dpkt_dsb.Reader.__init__/__iter__ run on a block-level model of a pcapn
          yield exactly the packet and DSB blocks, in order, with the payload untouched, use the classes of the file's byte order,
          and compute  if_tsoffset + ticks / 10^k  (MSB clear) or  ticks / 2^k  (MSB set).
 scale  : for resolutions 10^-3, 10^-6, 10^-9, 2^-10, 2^-20 the computed time of an instant that is a whole microsecond below 2^51
-         us is written back as that microsecond (relative-error model of IEEE doubles, z3 reals).
+         us is written back as that microsecond (rounding-error model of IEEE doubles, z3 reals).
 legacy : main.run with -l takes dpkt.pcap.Reader and feeds its (ts, buf) pairs through the same loop: identical writer calls.
 files  : the same packets as real files - little/big endian, EPB/PB, tsresol 3/6/9/2^-10/2^-20, if_tsoffset, name-resolution /
          statistics / custom blocks interspersed, DSB, legacy pcap with -l - through the real program: identical export."""
@@ -16,7 +16,7 @@ SITES = ["no-exception", "yields-exactly-packet-and-dsb-blocks", "byte-order-con
          "files-same-export"]
 MODELS = ["pcapng file: block-level model (tlv/harness/c12.py: FileModel, Dpng) replacing dpkt.pcapng inside tlexport.dpkt_dsb; dpkt's struct-level "
           "parsing of blocks is third-party code and is exercised only by the concrete 'files' harness",
-          "IEEE doubles in the scale lemma: relative error <= 2^-53 per operation"]
+          "IEEE doubles in the scale lemma: error <= half an ulp of the result's binade per operation"]
 ASSUMPTIONS = ["one section, one interface", "scale lemma: instants that are whole microseconds below 2^51 us"]
 
 EPB, PB, DSB, SHB, IDB = 6, 2, 0x0A, 0x0A0D0D0A, 1
@@ -316,7 +316,7 @@ def _run_scale(cfg):
         elif r != z3.unsat:
             inconc.append("solver: %s" % r)
     return {"stats": {"paths": n, "decisions": n, "queries": n, "solver_s": time.time() - t0, "checks": n}, "violations": viol, "sites": {"scale-microsecond": n},
-            "inconclusive": inconc, "samples": [{"path": 0, "inputs": {"divisor": div}, "result": "relative-error model", "validate": False}]}
+            "inconclusive": inconc, "samples": [{"path": 0, "inputs": {"divisor": div}, "result": "rounding-error model", "validate": False}]}
 
 
 def _run_legacy(cfg):
